@@ -98,6 +98,24 @@ claim("C13", "typestate (sticky error) and dominance rules on all paths of the R
       "discipline. Schedules of calls cannot be enumerated by tests; the paths of these functions can. Not decided: equality of the delivered bytes under all schedules.",
       TRUST, "DESIGN.md §4 C13")
 
+claim("C12", "path-sensitive event rules per mode on Reader.Read / newStreamReader; guard obligations; error-provenance dataflow",
+      "Decides on all paths: header = 4-byte ReadFull probe + 8 bytes; all-zero probe => errPadding RETURNED by newStreamReader (leading padding is an error for NewReader) and "
+      "skipped, never returned, by Reader.Read; SingleStream: no further header, clean EOF only from the one-byte probe's EOF edge, a byte => errUnexpectedData, other error "
+      "=> that error; multi-stream: a stream's EOF resets sr and continues; the only clean end is the whitelisted probe EOF; no probe error is postponed and lost. "
+      "Not decided: the homomorphism on decoded contents.", TRUST, "DESIGN.md §4 C12")
+
+claim("C01", "guard obligations (matchers, window length), typestate / event-word rules for xz.Writer and Writer2, error-provenance dataflow",
+      "Decides NECESSARY structural conditions only: every matcher candidate distance is bounded by encoderDict.DictLen() before use; DictLen/dictLen are min(head, capacity); "
+      "Write/Close on a closed writer do nothing and fail; Close = closed=true . closeBlockWriter . writeIndex . footer; fresh check per block; block rotation "
+      "(truncate to blockSize-n, errNoSpace => close block, new block, continue; record appended exactly after a successful block close); LZMA2 chunk sequencing; no sink error "
+      "masked. Not decided: equality of decoded and original bytes; success for every configuration (the small-dictionary raw-chunk defect named in the property text needs "
+      "buffer-occupancy arithmetic and is NOT detected by this check); partition independence.", TRUST, "DESIGN.md §4 C01")
+
+claim("C17", "guard-obligation with exact relation; control-dependence check; expression template over normalised SSA",
+      "Decides three structural preconditions of the bounds, not the bounds: raw-vs-compressed choice controlled exactly by 3+u < headerLen+c; binTree node->distance conversion "
+      "in signed arithmetic with + wordLen-1; matcher guard exactly `dist > DictLen()`. The compression-ratio bounds themselves (match-finder effectiveness) are NOT decided "
+      "and exit 0 says nothing about them.", TRUST, "DESIGN.md §4 C17")
+
 NOT_YET = "not yet decided: rules under construction (DESIGN.md §10); no claim is made"
 
 def main():
